@@ -14,6 +14,8 @@ CONSTANTS
   FixLeave = %(fl)s
   FixWrap = %(fw)s
   MaxTry = 3
+  TrackCov = FALSE
+  Goal = "none"
   MCLayout <- LayR4
   InitMembers = {1, 3, 4}
   Joiners = {2}
